@@ -182,7 +182,7 @@ func (t *TicketID) Decode(d *Decoder) error {
 func (t *TicketAttempt) Decode(d *Decoder) error {
 	cLog(Cyan, "Decoding TicketAttempt")
 
-	val, err := d.DecodeLength()
+	val, err := d.DecodeInteger()
 	if err != nil {
 		return err
 	}
@@ -910,7 +910,7 @@ func (w *WorkReport) Decode(d *Decoder) error {
 
 	// Work report core index is compact
 	// https://github.com/davxy/jam-test-vectors/commit/fed98559dabaa7058d7f9d83cb8c9353bd78d544
-	coreIndex, err := d.DecodeLength()
+	coreIndex, err := d.DecodeInteger()
 	if err != nil {
 		return err
 	}
